@@ -71,6 +71,8 @@ type Rule struct {
 	Do    string `json:"do"`
 	Arg   int    `json:"arg,omitempty"`   // ms for delay, code for code
 	Codes []int  `json:"codes,omitempty"` // code sequence (consumed one per match) for do=codes
+	Seq   int    `json:"seq,omitempty"`   // UpstreamChunk only: restrict to this sequence number
+	Gate  string `json:"gate,omitempty"`  // holdWrite: gate name the client-side Write waits on
 	seen  int
 	used  int
 }
@@ -238,6 +240,28 @@ func (b *Broker) findRule(kind string, inc int, actions ...string) *Rule {
 	return nil
 }
 
+// findRuleSeq is findRule restricted to rules whose Seq matches (0 = any).
+func (b *Broker) findRuleSeq(kind string, inc, seq int, actions ...string) *Rule {
+	b.mu.Lock()
+	defer b.mu.Unlock()
+	for _, r := range b.rules {
+		ok := false
+		for _, a := range actions {
+			if r.Do == a {
+				ok = true
+			}
+		}
+		if !ok || (r.Seq != 0 && r.Seq != seq) {
+			continue
+		}
+		if r.match(kind, inc) {
+			r.used++
+			return r
+		}
+	}
+	return nil
+}
+
 // SidOf returns the short stream id for a uuid ("?" if unknown).
 func (b *Broker) SidOf(id uuid.UUID) string {
 	b.mu.Lock()
@@ -275,8 +299,22 @@ func (t *cliTr) Read() ([]byte, error) { return t.inc.cliRaw.Read() }
 func (t *cliTr) Write(bs []byte) error {
 	b := t.inc.b
 	kind := "?"
+	seq := 0
 	if _, m, err := b.enc.DecodeFrom(bytes.NewBuffer(bs)); err == nil {
 		kind = KindOf(m)
+		if uc, ok := m.(*message.UpstreamChunk); ok && uc.StreamChunk != nil {
+			seq = int(uc.StreamChunk.SequenceNumber)
+		}
+	}
+	// holdWrite: this goroutine's Write is delayed (a legal behaviour of a transport used by
+	// several goroutines: concurrent writes complete in any order)
+	if r := b.findRuleSeq(kind, t.inc.c, seq, "holdWrite"); r != nil {
+		b.rec.Log("Fault", "c", t.inc.c, "do", "holdWrite", "on", kind, "seq", seq, "gate", r.Gate)
+		select {
+		case <-b.gate(r.Gate):
+		case <-time.After(10 * time.Second):
+		}
+		b.rec.Log("Fault", "c", t.inc.c, "do", "holdWriteReleased", "on", kind, "seq", seq, "gate", r.Gate)
 	}
 	if r := b.findRule(kind, t.inc.c, "cutBefore"); r != nil {
 		b.rec.Log("Fault", "c", t.inc.c, "do", "cutBefore", "on", kind)
